@@ -885,7 +885,8 @@ pub fn variant_frags() -> Vec<Frag> {
 }
 
 pub fn generics_frags() -> Vec<Frag> {
-    vec![f(""), f("<'a>"), f("<'a, 'b>"), f("<T>"), f("<const N: usize>"), f("<T: Copy>"), f("<'a, T>")]
+    let w = "type parameter without a concrete type";
+    vec![f(""), f("<'a>"), f("<'a, 'b>"), fr("<T>", w), f("<const N: usize>"), fr("<T: Copy>", w), fr("<'a, T>", w), fr("<S, T>", w), fr("<'a, 'b, T: 'a>", w)]
 }
 
 #[derive(Clone, serde::Serialize, serde::Deserialize)]
@@ -936,8 +937,13 @@ pub fn c19_cases(tier: Tier) -> Vec<C19Case> {
     }
     for va in &vf {
         for g in &gf {
-            push("variant x generics".into(), format!("enum T{} {{ #[token(\"a\")] {} }}", g.text, va.text), va.must_reject);
-            push("variant x generics (regex cb)".into(), format!("enum T{} {{ #[regex(\"a+\", cb)] {} }}", g.text, va.text), va.must_reject);
+            push("variant x generics".into(), format!("enum T{} {{ #[token(\"a\")] {} }}", g.text, va.text), va.must_reject.or(g.must_reject));
+            push("variant x generics (regex cb)".into(), format!("enum T{} {{ #[regex(\"a+\", cb)] {} }}", g.text, va.text), va.must_reject.or(g.must_reject));
+            // some, but not all, type parameters assigned
+            if g.text.contains("S, T") {
+                push("variant x generics".into(), format!("#[logos(type S = u8)] enum T{} {{ #[token(\"a\")] {} }}", g.text, va.text), va.must_reject.or(g.must_reject));
+                push("variant x generics".into(), format!("#[logos(type T = u8, type S = &str)] enum T{} {{ #[token(\"a\")] {} }}", g.text, va.text), va.must_reject);
+            }
         }
         push("variant no attr".into(), format!("enum T {{ {} , #[token(\"b\")] B }}", va.text), va.must_reject);
     }
